@@ -96,7 +96,9 @@ def load_record(tmp, sc, idx):
     # metadata id_attr as the scenario wants it (possibly None / junk): rewrite the attribute in place
     import h5py
     with h5py.File(gs_tmp, 'r+') as f:
-        if attr is None:
+        if attr is None and sc.get('attr_absent'):
+            del f.attrs['id_attr']                    # the attribute is not there at all (a file written by another tool / an older version)
+        elif attr is None:
             f.attrs['id_attr'] = h5py.Empty(h5py.string_dtype())
         else:
             f.attrs['id_attr'] = attr
@@ -214,6 +216,9 @@ def scenarios(ctx):
     yield dict(world=w, id_attr='key', sig_order=[0, 1, 2], why='genome without signature')
     yield dict(world=w, id_attr='key', sig_order=[3, 1], why='two genomes without signature')
     yield dict(world=w, id_attr=None, sig_order=list(range(n)), why='metadata names no identifier attribute')
+    for store in ATTRS:
+        yield dict(world=w, id_attr=None, attr_absent=True, store_attr=store, sig_order=list(range(n)), why=f'the id_attr attribute is absent from the file (ids are {store} values)')
+        yield dict(world=w, id_attr=None, store_attr=store, sig_order=[2, 0, 1, 3], why=f'the id_attr attribute is empty (ids are {store} values)')
     yield dict(world=w, id_attr='description', sig_order=list(range(n)), why='invalid identifier attribute')
     yield dict(world=w, id_attr='refseq_acc', store_attr='key', sig_order=list(range(n)), why='ids are keys but id_attr says refseq_acc')
     yield dict(world=w, id_attr='genbank_acc', sig_order=list(range(n)), nulls=[(1, 'genbank_acc')], why='a genome with a null identifier')
